@@ -283,3 +283,6 @@ def r7(run, db):
 Q = ["dflt", "rc"]
 TH = ["dflt", "rc", "atr", "astd"]
 RULES = [{"id": "C09.R%d" % i, "fn": f, "quick": Q, "thorough": TH} for i, f in enumerate([r1, r2, r3, r4, r5, r6, r7], 1)]
+from .etype import witness_rule
+RULES.append({"id": "C09.W", "fn": witness_rule(['W1ReplyOnce', 'W2ReplyNoClone']), "quick": [], "thorough": [], "no_db": True})
+DOC["C09.W"] = 'E-TYPE witnesses W1 (second send on a reply port is E0382) and W2 (clone of a reply port is E0599), each with a compiling twin'
